@@ -50,14 +50,30 @@ Print Assumptions C13_null_stays_null.
 
 Theorem C13_missing_file_to_null : forall ps outrel fname fp s,
   fp <> [] -> clean_path fp -> lk s fp = None ->
+  lk s ((ps ++ outrel) ++ [fname]) = None ->
   move_file ps outrel fname (JStr (render fp)) s = (JNull, s).
 Proof. exact move_file_missing_lemma. Qed.
 Print Assumptions C13_missing_file_to_null.
 
 Example C13_missing_file_nonvacuous :
   let fp := [bs "R"; bs "ps"; bs "w"; bs "gone"] in
-  fp <> [] /\ clean_path fp /\ lk (init_st []) fp = None.
+  fp <> [] /\ clean_path fp /\ lk (init_st []) fp = None /\
+  lk (init_st []) (([bs "R"; bs "ps"] ++ [bs "outs"]) ++ [bs "gone"]) = None.
 Proof. vm_compute. repeat split; try reflexivity; discriminate. Qed.
+
+(* a post-processing run that was killed after it moved a file to its place
+   under outs/ and before it linked it back is completed by the next run: the
+   link back is made and the rewritten value names the place under outs/
+   (without this the restarted pipestance reported null for that output) *)
+Theorem C13_interrupted_move_resumed : forall ps outrel fname fp s n,
+  fp <> [] -> clean_path fp -> lk s fp = None ->
+  lk s ((ps ++ outrel) ++ [fname]) = Some n ->
+  lk s (dirname fp) = Some NDir ->
+  let outp := (ps ++ outrel) ++ [fname] in
+  move_file ps outrel fname (JStr (render fp)) s =
+  (JStr (render outp), with_fs s (fs_set fp (NLink (rel_path (dirname fp) outp)) (fs s))).
+Proof. exact move_file_resumes_lemma. Qed.
+Print Assumptions C13_interrupted_move_resumed.
 
 (* the compiler's duplicate-name rejection (modelled by names_distinct, tied
    to syntax.ParseSourceBytes by the naming cases) makes the entries of one
